@@ -1153,9 +1153,14 @@ func (envs *Manager) handleDeviceEvent(evt event.DeviceEvent) {
 				WithField("envState", env.CurrentState()).
 				WithField(infologger.Level, infologger.IL_Support).
 				Debug("received TASK_INTERNAL_ERROR event from task, trying to stop the run")
-			if env.CurrentState() == "RUNNING" {
-				go func() {
-					t.GetParent().UpdateState(sm.ERROR)
+			// The task is in ERROR whatever its environment is doing, so its role must say so in every
+			// environment state; additionally, if a run is ongoing we try to stop it.
+			envIsRunning := env.CurrentState() == "RUNNING"
+			go func() {
+				if taskParent := t.GetParent(); taskParent != nil {
+					taskParent.UpdateState(sm.ERROR)
+				}
+				if envIsRunning {
 					err = env.TryTransition(NewStopActivityTransition(envs.taskman))
 					if err != nil {
 						log.WithPrefix("scheduler").
@@ -1163,8 +1168,8 @@ func (envs *Manager) handleDeviceEvent(evt event.DeviceEvent) {
 							WithError(err).
 							Error("cannot stop run after END_OF_STREAM event")
 					}
-				}()
-			}
+				}
+			}()
 		}
 
 	}
